@@ -89,6 +89,10 @@ func Call(
 	if err != nil {
 		return nil, err
 	}
+	if obj == nil {
+		// The name is declared but the code that ran never assigned it
+		return nil, fmt.Errorf("object is not a function (got: nil)")
+	}
 	fn, ok := obj.(*object.Function)
 	if !ok {
 		return nil, fmt.Errorf("object is not a function (got: %s)", obj.Type())
